@@ -244,8 +244,6 @@ def _samples(rnd, S):
 def gen_trace_case(rnd, tier, i):
     big = tier == "thorough" and i % 3 == 0
     n = rnd.randint(1, 9 if big else 6)
-    if i % 11 == 0:
-        n = 1
     S = rnd.randint(1, 3)
     G = rnd.randint(2, 7)
     clustered = i % 2 == 1
@@ -323,6 +321,8 @@ def gen_direct_case(rnd, tier, i):
 
 def cases(tier, rnd):
     out = []
+    for i in range(8 if tier == "quick" else 60):  # first: each costs a few seconds (numba compilation per worker)
+        out.append(gen_run_case(rnd, i))
     nt = 400 if tier == "quick" else 8000
     nd = 90 if tier == "quick" else 900
     for i in range(nt):
@@ -424,11 +424,13 @@ def input_mutations(case):
 
 
 # --------------------------------------------------------------------------- oracle + correspondence on one output
-def judge(ctx, case, what, site, table_text, nwk_text, tree, data, expect_key=None):
-    """table_text / nwk_text: what the command wrote; tree: the Tree it tabulated."""
-    samples = list(case["samples"])
-    G = case["G"]
-    muts, clus = input_mutations(case)
+def judge(ctx, case, what, site, table_text, nwk_text, tree, data, expect_key=None, info=None):
+    """table_text / nwk_text: what the command wrote; tree: the Tree it tabulated; info: where samples, grid size,
+    names and cluster rows come from (the case itself unless the trace was produced by a real run)."""
+    info = info or case
+    samples = list(info["samples"])
+    G = info["G"]
+    muts, clus = input_mutations(info)
 
     def bad(msg, sig, detail=None):
         ctx.oracle_fail(case, f"{what}: {msg}", site, sig, detail)
@@ -527,7 +529,7 @@ def judge(ctx, case, what, site, table_text, nwk_text, tree, data, expect_key=No
             return
         ccf_in.append([int(c), [fr(x) for x in a], [fr(x) for x in b]])
     req = {"op": "table", "forest": lf, "outs": outs, "names": [str(dp.name) for dp in data], "samples": samples,
-           "clusters": None if clus is None else [[str(m), int(c)] for m, c in case["clusters"]], "ccf": ccf_in}
+           "clusters": None if clus is None else [[str(m), int(c)] for m, c in info["clusters"]], "ccf": ccf_in}
     ans = ctx.ask(req)
     mrows = sorted((r[0], r[3], r[1], r[2], Fraction(r[4]), Fraction(r[5])) for r in ans["rows"])
     try:
@@ -594,6 +596,70 @@ def run_command(ctx, case, what, site, fn):
     return cap.calls
 
 
+def run_all_commands(ctx, case, f, data, d, thr, top, expect_key=None, info=None):
+    """the three commands (five variants) on trace file `f`; every written table / Newick is judged"""
+    tb, nw = os.path.join(d, "T.tsv"), os.path.join(d, "T.nwk")
+
+    def one(what, site, fn, expect_key=None):
+        for p in (tb, nw):
+            if os.path.exists(p):
+                os.remove(p)
+        calls = run_command(ctx, case, what, site, fn)
+        if calls is None:
+            return
+        if len(calls) != 1:
+            ctx.corr_fail(case, f"{what}: get_clone_table observed {len(calls)} times (harness cannot see the tabulated tree)", None)
+            return
+        if not (os.path.exists(tb) and os.path.exists(nw)):
+            ctx.oracle_fail(case, f"{what}: output file not written", site, "no-output")
+            return
+        judge(ctx, case, what, site, open(tb).read(), open(nw).read(), calls[0], data, expect_key, info)
+        return calls[0]
+
+    one("map joint-likelihood", "process_trace.write_map_results", lambda: pt.write_map_results(f, tb, nw), expect_key)
+    one("map frequency", "process_trace.write_map_results", lambda: pt.write_map_results(f, tb, nw, map_type="frequency"))
+    one("consensus counts", "process_trace.write_consensus_results",
+        lambda: pt.write_consensus_results(f, tb, nw, consensus_threshold=thr, weight_type="counts"))
+    one("consensus joint-likelihood", "process_trace.write_consensus_results",
+        lambda: pt.write_consensus_results(f, tb, nw, consensus_threshold=thr, weight_type="joint-likelihood"))
+    # topology report + archive
+    rep, arc = os.path.join(d, "top.tsv"), os.path.join(d, "top.tar.gz")
+    site = "process_trace.write_topology_report"
+    calls = run_command(ctx, case, "topology report", site,
+                        lambda: pt.write_topology_report(f, rep, topologies_archive=arc, top_trees=(float("inf") if top is None else top)))
+    if calls is None:
+        return
+    with open(rep) as fh:
+        _, trows = read_table(fh.read())
+    ntop = len(trows)
+    want_n = ntop if top is None else min(top, ntop)
+    members = {}
+    order = []
+    with tarfile.open(arc) as a:
+        for m in a.getmembers():
+            members[m.name] = a.extractfile(m).read().decode()
+            if m.name.endswith("_results_table.tsv"):
+                order.append(m.name.split("/")[0])
+    if len(order) != want_n or len(calls) != len(order):
+        ctx.oracle_fail(case, f"topology archive holds {len(order)} tables for {ntop} topologies (top_trees={top})", site, "archive-count")
+        return
+    by_id = {r["topology_id"]: r for r in trows}
+    for tid, tree in zip(order, calls):
+        tt = members.get(f"{tid}/{tid}_results_table.tsv")
+        nn = members.get(f"{tid}/{tid}.nwk")
+        if tt is None or nn is None or tid not in by_id:
+            ctx.oracle_fail(case, f"topology archive entry {tid} incomplete", site, "archive-entry")
+            continue
+        try:
+            if canon_nwk(parse_newick(by_id[tid]["topology"])) != canon_nwk(parse_newick(nn)):
+                # the report prints the best-scoring member of the topology class, the archive its first member: same
+                # topology, possibly other node ids; not part of C12 (table and .nwk inside the archive agree)
+                ctx.stat("report_newick_labels_differ_from_archive")
+        except ValueError:
+            pass
+        judge(ctx, case, f"topology archive {tid}", site, tt, nn, tree, data, None, info)
+
+
 def check_trace(ctx, case):
     d = tempfile.mkdtemp(prefix="c12_")
     try:
@@ -602,72 +668,78 @@ def check_trace(ctx, case):
         ctx.stat("clustered" if clustered else "unclustered")
         ctx.stat(f"S_{case['S']}")
         ctx.stat(f"n_{len(case['names'])}")
-        tb, nw = os.path.join(d, "T.tsv"), os.path.join(d, "T.nwk")
-
-        def one(what, site, fn, expect_key=None):
-            for p in (tb, nw):
-                if os.path.exists(p):
-                    os.remove(p)
-            calls = run_command(ctx, case, what, site, fn)
-            if calls is None:
-                return
-            if len(calls) != 1:
-                ctx.corr_fail(case, f"{what}: get_clone_table observed {len(calls)} times (harness cannot see the tabulated tree)", None)
-                return
-            if not (os.path.exists(tb) and os.path.exists(nw)):
-                ctx.oracle_fail(case, f"{what}: output file not written", site, "no-output")
-                return
-            judge(ctx, case, what, site, open(tb).read(), open(nw).read(), calls[0], data, expect_key)
-            return calls[0]
-
-        one("map joint-likelihood", "process_trace.write_map_results", lambda: pt.write_map_results(f, tb, nw), expected_map_key(case))
-        one("map frequency", "process_trace.write_map_results", lambda: pt.write_map_results(f, tb, nw, map_type="frequency"))
-        thr = case["threshold"]
-        t = one("consensus counts", "process_trace.write_consensus_results",
-                lambda: pt.write_consensus_results(f, tb, nw, consensus_threshold=thr, weight_type="counts"))
-        one("consensus joint-likelihood", "process_trace.write_consensus_results",
-            lambda: pt.write_consensus_results(f, tb, nw, consensus_threshold=thr, weight_type="joint-likelihood"))
-        if case.get("expect_empty_clone") and t is not None:
-            lf, _ = lf_of_tree(t)
-            if "tree_with_empty_clone" not in ctx.stats:
-                ctx.corr_fail(case, "fixed mixture did not give a consensus clone without own mutations (generator out of date)", lf)
-        # topology report + archive
-        rep, arc = os.path.join(d, "top.tsv"), os.path.join(d, "top.tar.gz")
-        top = case["top_trees"]
-        site = "process_trace.write_topology_report"
-        calls = run_command(ctx, case, "topology report", site,
-                            lambda: pt.write_topology_report(f, rep, topologies_archive=arc, top_trees=(float("inf") if top is None else top)))
-        if calls is not None:
-            with open(rep) as fh:
-                _, trows = read_table(fh.read())
-            ntop = len(trows)
-            want_n = ntop if top is None else min(top, ntop)
-            members = {}
-            order = []
-            with tarfile.open(arc) as a:
-                for m in a.getmembers():
-                    members[m.name] = a.extractfile(m).read().decode()
-                    if m.name.endswith("_results_table.tsv"):
-                        order.append(m.name.split("/")[0])
-            if len(order) != want_n or len(calls) != len(order):
-                ctx.oracle_fail(case, f"topology archive holds {len(order)} tables for {ntop} topologies (top_trees={top})", site, "archive-count")
-            else:
-                by_id = {r["topology_id"]: r for r in trows}
-                for tid, tree in zip(order, calls):
-                    tt = members.get(f"{tid}/{tid}_results_table.tsv")
-                    nn = members.get(f"{tid}/{tid}.nwk")
-                    if tt is None or nn is None or tid not in by_id:
-                        ctx.oracle_fail(case, f"topology archive entry {tid} incomplete", site, "archive-entry")
-                        continue
-                    if by_id[tid]["topology"].strip() != nn.strip():
-                        # the report prints the best-scoring member of the topology class, the archive its first member:
-                        # same topology, possibly other node ids; not part of C12 (table and .nwk of the archive agree)
-                        ctx.stat("report_newick_labels_differ_from_archive")
-                    judge(ctx, case, f"topology archive {tid}", site, tt, nn, tree, data)
+        before = ctx.stats.get("tree_with_empty_clone", 0)
+        run_all_commands(ctx, case, f, data, d, case["threshold"], case["top_trees"], expected_map_key(case))
+        if case.get("expect_empty_clone") and ctx.stats.get("tree_with_empty_clone", 0) == before and not ctx.oracle_failures:
+            ctx.corr_fail(case, "fixed mixture did not give a consensus clone without own mutations (generator out of date)", None)
         nontrivial = clustered or any(forest_size(e["forest"]) >= 2 or e["outs"] for ch in case["chains"] for e in ch)
         ctx.done(case, nontrivial=nontrivial,
                  sample={"names": case["names"], "samples": case["samples"], "clusters": case["clusters"],
                          "trees": [[(e["forest"], e["outs"]) for e in ch] for ch in case["chains"]][:2]})
+    finally:
+        shutil.rmtree(d, ignore_errors=True)
+
+
+def gen_run_case(rnd, i):
+    """input files for a real `phyclone run` (tiny settings); the trace it writes is then processed"""
+    n = rnd.randint(2, 6)
+    S = rnd.randint(1, 3)
+    samples = _samples(rnd, S)
+    muts = [f"mut{k}" for k in rnd.sample(range(50), n)]
+    rows = []
+    for m in muts:
+        for s in samples:
+            rows.append([m, s, rnd.randint(15, 90), rnd.randint(0, 60), rnd.choice([1, 2, 2, 3]), rnd.choice([0, 1]), 2])
+    clustered = i % 2 == 1
+    crows = None
+    if clustered:
+        k = rnd.randint(1, n)
+        cids = rnd.sample(range(0, 12), k)
+        crows = [[m, cids[j % k] if j < k else rnd.choice(cids)] for j, m in enumerate(muts)]
+        if rnd.random() < 0.5:
+            # a mutation the loader drops (major copy number 0) in a cluster of its own: its cluster has no data point
+            m = "dropped1"
+            for s in samples:
+                rows.append([m, s, 30, 10, 0, 0, 2])
+            crows.append([m, max(cids) + 1])
+    return {"kind": "run", "rows": rows, "samples": samples, "clusters": crows, "seed": rnd.randrange(1 << 20),
+            "outlier_prob": rnd.choice([0, 0.2, 0.5]), "subtree": rnd.choice([0.0, 0.3]), "iters": rnd.randint(5, 25),
+            "proposal": rnd.choice(["bootstrap", "semi-adapted", "fully-adapted"]), "grid": rnd.choice([5, 11]),
+            "threshold": rnd.choice([0.5, 0.7]), "top_trees": rnd.choice([None, 2])}
+
+
+def check_run(ctx, case):
+    from phyclone.run import run
+
+    d = tempfile.mkdtemp(prefix="c12_")
+    try:
+        inp = os.path.join(d, "in.tsv")
+        with open(inp, "w") as fh:
+            fh.write("mutation_id\tsample_id\tref_counts\talt_counts\tmajor_cn\tminor_cn\tnormal_cn\n")
+            for r in case["rows"]:
+                fh.write("\t".join(str(x) for x in r) + "\n")
+        cf = None
+        if case["clusters"] is not None:
+            cf = os.path.join(d, "clusters.tsv")
+            with open(cf, "w") as fh:
+                fh.write(cluster_file_text(case))
+        f = os.path.join(d, "trace.pkl.gz")
+        with contextlib.redirect_stdout(io.StringIO()):
+            run(inp, f, burnin=2, cluster_file=cf, num_iters=case["iters"], num_particles=5, grid_size=case["grid"],
+                seed=case["seed"], outlier_prob=case["outlier_prob"], print_freq=10_000, proposal=case["proposal"],
+                subtree_update_prob=case["subtree"], num_chains=1)
+        with gzip.GzipFile(f, "rb") as fh:
+            results = pickle.load(fh)
+        data = results[0]["data"]
+        cl = results[0].get("clusters")
+        info = {"samples": list(results[0]["samples"]), "G": int(data[0].grid_size[1]), "names": [str(x.name) for x in data],
+                "clusters": None if cl is None else [[str(m), int(c)] for m, c in zip(cl["mutation_id"], cl["cluster_id"])]}
+        if (cl is None) != (case["clusters"] is None):
+            ctx.corr_fail(case, "trace of a run with/without cluster file has no/a clusters entry", None)
+        ctx.stat("run_clustered" if cl is not None else "run_unclustered")
+        ctx.stat("run_trace_entries", sum(len(r["trace"]) for r in results.values()))
+        run_all_commands(ctx, case, f, data, d, case["threshold"], case["top_trees"], None, info)
+        ctx.done(case, nontrivial=True, sample={"samples": case["samples"], "clusters": case["clusters"], "n_rows": len(case["rows"])})
     finally:
         shutil.rmtree(d, ignore_errors=True)
 
@@ -730,6 +802,8 @@ def check(ctx, case):
     ctx.stat("kind_" + case["kind"])
     if case["kind"] == "trace":
         return check_trace(ctx, case)
+    if case["kind"] == "run":
+        return check_run(ctx, case)
     return check_direct(ctx, case)
 
 
